@@ -2,7 +2,12 @@
 import subprocess, sys, re
 from pathlib import Path
 import os
-VERIF = Path(__file__).resolve().parent.parent; REPO = Path(os.environ.get('MAHOTAS_REPO', '/repo'))   # run against a scratch WORKTREE of /repo only: the tree is edited and restored
+VERIF = Path(__file__).resolve().parent.parent
+if not os.environ.get('MAHOTAS_REPO') or Path(os.environ['MAHOTAS_REPO']).resolve() == Path('/repo'):
+    sys.exit('set MAHOTAS_REPO to a scratch worktree of /repo: this tool edits the tree and restores it with `git checkout`')
+REPO = Path(os.environ['MAHOTAS_REPO'])
+if subprocess.run(['git', 'status', '--short'], cwd=REPO, stdout=subprocess.PIPE, text=True).stdout.strip():
+    sys.exit(f'{REPO} has uncommitted changes')
 sys.path.insert(0, str(VERIF))
 from translator import cscalar
 G = VERIF / 'lean' / 'Mahotas' / 'Generated'
